@@ -13,8 +13,8 @@ def jhash(obj):
     return hashlib.sha1(json.dumps(obj, sort_keys=True, default=str).encode()).hexdigest()[:16]
 
 
-def viol(kind, detail='', sig=None):
-    return {'kind': kind, 'sig': sig or kind, 'detail': str(detail)[:1500]}
+def viol(kind, detail='', sig=None, data=None):
+    return {'kind': kind, 'sig': sig or kind, 'detail': str(detail)[:1500], 'data': data or {}}
 
 
 def exc_sig(e):
@@ -35,7 +35,7 @@ def exc_viol(kind, e, extra=''):
     if sig.endswith('@harness'):
         # An exception that never touched adsg_core is a harness bug, not a violation
         raise HarnessError(f'{type(e).__name__}: {e}\n{"".join(traceback.format_tb(e.__traceback__))}')
-    return viol(kind, f'{extra} {type(e).__name__}: {e}', sig=f'{kind}:{sig}')
+    return viol(kind, f'{extra} {type(e).__name__}: {e}', sig=f'{kind}:{sig}', data={'msg': str(e)[:300]})
 
 
 class HarnessError(Exception):
@@ -172,6 +172,15 @@ def run_campaign(check, stats, known, n_examples, seed, tier, shrink_budget_s=15
         if state['fail_t0'] is None:
             stats.record(case, res, source)
         rest = split_violations(check.ID, case, res, known, stats) if res.violations else []
+        if rest and os.environ.get('VF_SURVEY'):
+            sv = stats.extra.setdefault('survey', {})
+            for v in rest:
+                ent = sv.setdefault(v['sig'], {'count': 0, 'size': 10**9})
+                ent['count'] += 1
+                size = len(json.dumps(case, default=str))
+                if size < ent['size']:
+                    ent.update(size=size, case=case, detail=v['detail'], kind=v['kind'])
+            return
         if rest:
             v = rest[0]
             if state['fail_t0'] is None:
